@@ -1,6 +1,7 @@
 //! C09 — damage to persistent files is detected or harmless, never silent, never a panic.
 
 mod alloc;
+mod backuppart;
 mod bytes_oracle;
 mod corpus;
 mod damage;
@@ -37,6 +38,7 @@ fn check() -> Check {
     .part(engine::DamagePart(sstpart::SstDamage))
     .part(engine::DamagePart(logpart::LogDamage))
     .part(engine::DamagePart(manipart::ManiDamage))
+    .part(engine::DamagePart(backuppart::BackupDamage))
     .part(engine::ExhaustivePart { target: sstpart::SstDamage, name: "sst-every-offset", quick_files: 2, thorough_files: 40, max_len: 14_000 })
     .part(engine::ExhaustivePart { target: logpart::LogDamage, name: "log-every-offset", quick_files: 3, thorough_files: 60, max_len: 6_000 })
     .part(engine::ExhaustivePart { target: manipart::ManiDamage, name: "manifest-every-offset", quick_files: 4, thorough_files: 80, max_len: 3_000 })
